@@ -46,6 +46,7 @@ MESSAGES = {
     "plain": "something went wrong", "multiline": "first line\nsecond line", "unicode": "échec: 失敗 ✓", "balanced": "a <b>bold</b> word",
     "opening": "an <info>unclosed tag", "closing": "a stray </info> tag", "crossed": "<b>crossed</info> tags", "escaped": "an \\<b> escaped tag",
     "long": "word " * 1000, "empty": "", "lt": "1 < 2 and 3 > 2",
+    "ends-backslash": "directory C:\\temp\\", "ends-2-backslashes": "share not found: \\\\", "anyclose": "closing </> nothing",
 }
 
 
@@ -628,7 +629,7 @@ def outcome_space():
 def plan(tier, seed):
     env = {"PATH": "/nonexistent-verif-path"}
     if tier == "quick":
-        return [{"part": "outcomes", "n": 500, "_env": env} for _ in range(3)] + [{"part": "inject", "limit": 75, "slice": [i, 2], "_env": env} for i in range(2)] + [
+        return [{"part": "outcomes", "n": 500, "_env": env} for _ in range(3)] + [{"part": "outcomes-strata", "slice": [i, 2], "_env": env} for i in range(2)] + [{"part": "inject", "limit": 75, "slice": [i, 2], "_env": env} for i in range(2)] + [
             {"part": "hostile", "_env": env}, {"part": "reuse", "n": 300, "_env": env}]
     specs = [{"part": "outcomes-full", "slice": [i, 10], "_env": env} for i in range(10)]
     specs += [{"part": "inject", "limit": 0, "slice": [i, 5], "_env": env} for i in range(5)] + [{"part": "hostile", "_env": env}, {"part": "reuse", "n": 5000, "_env": env}]
@@ -657,6 +658,19 @@ def _run(sh, spec):
             run_case(sh, env, o, rng.choice(sorted(MESSAGES)) if o[0] == "raise" else "plain", rng.choice(VERBOSITY), rng.choice(LISTENERS), rng.random() < 0.5,
                      quiet=rng.random() < 0.08)
         sh.sample({"outcome": list(o), "message": "(last case of this shard)", "note": "one of the sampled outcome runs"})
+    elif part == "outcomes-strata":
+        # every way of failing x the message classes that look like markup, once each (the random part may miss a pairing)
+        i, n = spec["slice"]
+        k = 0
+        for o in outs:
+            if o[0] != "raise":
+                continue
+            for m in ("closing", "crossed", "opening", "ends-backslash", "ends-2-backslashes", "anyclose"):
+                k += 1
+                if k % n != i:
+                    continue
+                run_case(sh, env, o, m, VERBOSITY[k % len(VERBOSITY)], "none", k % 2 == 0)
+                sh.count("stratified_exception_runs")
     elif part == "outcomes-full":
         k = 0
         i, n = spec["slice"]
